@@ -123,7 +123,7 @@ tagvalue(char **lines, const unsigned int idx)
  * @param mx MX result list is stored here
  * @param remhost original remote host
  * @param targetport targetport will be stored here
- * @param buf additional buffer, will be freed in case of fatal error
+ * @param buf additional buffer, will be freed in case of fatal error (may be NULL)
  * @param host host name of smtproute or NULL
  * @param port port string of smtproute of NULL
  * @retval 0 values were successfully parsed
@@ -131,7 +131,7 @@ tagvalue(char **lines, const unsigned int idx)
  *
  * The function will abort the program if a parse error occurs.
  */
-static int __attribute__ ((nonnull(1, 2, 3, 4)))
+static int __attribute__ ((nonnull(1, 2, 3)))
 parse_route_params(struct ips **mx, const char *remhost, unsigned int *targetport, void *buf, const char *host, const char *port)
 {
 	if (host != NULL) {
